@@ -56,6 +56,15 @@ func ApplyInclude(ctx context.Context, workingDir string, environment types.Mapp
 		return err
 	}
 
+	// workingDir of a nested include is relative to the directory of the top-level project:
+	// files must be looked up from the (absolute) directory the local loader works in
+	baseDir := workingDir
+	for _, loader := range options.ResourceLoaders {
+		if l, ok := loader.(localResourceLoader); ok && l.WorkingDir != "" {
+			baseDir = l.WorkingDir
+		}
+	}
+
 	for _, r := range includeConfig {
 		for _, listener := range options.Listeners {
 			listener("include", map[string]any{
@@ -84,7 +93,7 @@ func ApplyInclude(ctx context.Context, workingDir string, environment types.Mapp
 						r.ProjectDirectory = filepath.Dir(path)
 					case !filepath.IsAbs(r.ProjectDirectory):
 						relworkingdir = loader.Dir(r.ProjectDirectory)
-						r.ProjectDirectory = filepath.Join(workingDir, r.ProjectDirectory)
+						r.ProjectDirectory = filepath.Join(baseDir, r.ProjectDirectory)
 
 					default:
 						relworkingdir = r.ProjectDirectory
@@ -118,7 +127,7 @@ func ApplyInclude(ctx context.Context, workingDir string, environment types.Mapp
 			envFile := []string{}
 			for _, f := range r.EnvFile {
 				if !filepath.IsAbs(f) {
-					f = filepath.Join(workingDir, f)
+					f = filepath.Join(baseDir, f)
 					s, err := os.Stat(f)
 					if err != nil {
 						return err
